@@ -64,7 +64,7 @@ class Deep:
                 if plugin_resource:
                     default_resource = default_resource.merge(plugin_resource)
             except Exception:
-                deep.logging.exception("Failed to process plugin resource {}", provider.name)
+                deep.logging.exception("Failed to process plugin resource %s", provider)
 
         self.config.resource = default_resource
         self.trigger_handler.start()
@@ -87,7 +87,7 @@ class Deep:
             try:
                 plugin.shutdown()
             except Exception:
-                deep.logging.exception("Failed to shutdown plugin %s", plugin.name)
+                deep.logging.exception("Failed to shutdown plugin %s", plugin)
         deep.logging.info("Deep is shutdown.")
         self.started = False
 
